@@ -108,6 +108,9 @@ func (op *pipelineOp) exec(fm *Frame) Exception {
 		var fops []formOwnedPort
 		inputIsPipe := i > 0
 		outputIsPipe := i < nforms-1
+		// The pipe this form reads from. The form may redirect its port 0
+		// elsewhere, so keep it for signalling the writer afterwards.
+		input := nextIn
 		if inputIsPipe {
 			newFm.ports[0] = nextIn
 			growAccess(&fops, 0).File = true
@@ -139,7 +142,6 @@ func (op *pipelineOp) exec(fm *Frame) Exception {
 				*pexc = exc
 			}
 			if inputIsPipe {
-				input := newFm.ports[0]
 				*input.sendError = errs.ReaderGone{}
 				close(input.sendStop)
 				input.readerGone.Store(true)
